@@ -59,6 +59,14 @@ CLAIMS = {
                  'find_references. Behaviour preservation and the partition property are not decided.',
         'technique': 'def-use/shape rules + CFG pair/must rules + table-key agreement (ast)',
     },
+    'C06': {
+        'level': 'One table clause whose gaps are, deterministically, wrong or invalid output: from parso\'s grammar the checker derives every '
+                 'nonterminal in which a name can be an operand tighter than a general expression and requires inline() to parenthesise '
+                 'there (or the position to hold only assignment targets), with the parent-type test an unweakened disjunct of the wrapping '
+                 'condition; plus grammar existence of every extractable type and the wrapper-climbing loop of the insertion point. Five '
+                 'genuine gaps were found this way and repaired. Equivalence of refactored programs is not decided.',
+        'technique': 'grammar-vs-table agreement (pgen grammar reader) + condition-shape check (ast)',
+    },
     'C07': {
         'level': 'Single source of truth (the only call of the tree refactorer is get_new_code; diff and apply read it), a whole-package '
                  'inventory of file-system mutators against the triaged apply()/save() sites, the write discipline of ChangedFile.apply '
@@ -81,6 +89,12 @@ CLAIMS = {
                  'exactly the documented special case, get_line_code indexes the name\'s own module lines under a None test, and the '
                  'definition/reference predicate of get_names is decided by its full truth table. parso\'s token positions are trusted.',
         'technique': 'class-hierarchy census + def-use shape rules + truth-table evaluation of a boolean AST (ast)',
+    },
+    'C18': {
+        'level': 'Header rule of Script.get_context and its sibling implementations (shared with C03.g), tree-climbing parent() over the full '
+                 'funcdef/classdef/file_input set with a loop over name-less contexts, the case table of qualified-name assembly and that the '
+                 'stdlib pretty-name mapping touches only the first component of full_name. The position-to-scope mapping over all files is not decided.',
+        'technique': 'sibling agreement + def-use/shape rules + None-dereference rule (ast)',
     },
     'C19': {
         'level': 'Pruning and pre-filter, where a small edit silently leaks or loses files: the ignore table, slice-assignment pruning with '
